@@ -13,8 +13,8 @@ import (
 const rule = "distinct (graph, root, initial destination, mode, store pairing, K, MapRoot/platform) whose reachable part has >= 3 nodes and meets an already-present node, a shared node, a duplicate or foreign successor or a subject link"
 
 var (
-	quick    = copyh.Budget{Main: 800, Contention: 150, Twin: 50, CbFail: 80, Mount: 150, Remote: 150, RootPresent: 120, Extended: 100, TwinReach: 120, PlatImage: 40, Reps: 0, Sched: 60, SchedReps: 4}
-	thorough = copyh.Budget{Main: 5000, Contention: 800, Twin: 300, CbFail: 400, Mount: 600, Remote: 600, RootPresent: 500, Extended: 400, TwinReach: 600, PlatImage: 200, Reps: 3, Small: true, Sched: 100, SchedReps: 49}
+	quick    = copyh.Budget{Main: 600, Contention: 150, Twin: 50, CbFail: 80, Mount: 150, Remote: 150, RootPresent: 120, Extended: 100, TwinReach: 120, PlatImage: 40, Cancel: 150, Reps: 0, Sched: 60, SchedReps: 4, SchedEnum: 6, SchedEnumCap: 60}
+	thorough = copyh.Budget{Main: 3200, Contention: 600, Twin: 300, CbFail: 400, Mount: 600, Remote: 600, RootPresent: 500, Extended: 400, TwinReach: 600, PlatImage: 200, Cancel: 700, Reps: 2, Small: true, Sched: 100, SchedReps: 49, SchedEnum: 40, SchedEnumCap: 350}
 )
 
 // main: the plain binary (no controlled schedules; bin/check builds the test binary).
